@@ -394,7 +394,12 @@ def leaf_predicate_rule(ctx, rule="R5.siblings"):
         a.c[0].strip().c[0].strip_casts().k == "MemberExpr" and a.c[0].strip().c[0].strip_casts().name == "leaf_indices"
         for a in [y for y in n.c if y is not None][1].walk())]
     if not c1 or not c2:
-        raise AnalysisBroken("leaf predicate of count_leaves / traverse_schema_recursive not found")
+        # not written as two if-conditions (a conditional expression, a branch-free sum): nothing to compare by
+        # reading; the bounded-trees rule decides whether sizing and filling agree
+        _settle_leaf(ctx, rule, "leaf-predicate-extent|%s:count_leaves/traverse" % FR, P.where(cnt.body),
+                     "the arrays allocated for count_leaves() leaves are filled by a walk that decides 'leaf' by the same predicate",
+                     False, "the leaf tests are not both if-conditions")
+        return
     t1 = _strip_base(Canon(cnt)([x for x in c1[0].c if x is not None][0]))
     t2 = _strip_base(Canon(tr)([x for x in c2[0].c if x is not None][0]))
     _settle_leaf(ctx, rule, "leaf-predicate-extent|%s:count_leaves/traverse" % FR, P.where(c2[0]),
